@@ -7,7 +7,7 @@
     constant breaks this obligation. *)
 From Coq Require Import List ZArith Lia Bool.
 From Webp Require Import Base.Res Vp8l.Vp8lPrefix Vp8l.Vp8lSpec Vp8l.Vp8lEmit.
-From WebpGen Require Consts.
+From WebpGen Require Consts Vp8lRoles.
 Open Scope Z_scope.
 
 Ltac Zify.zify_post_hook ::= idtac.
@@ -36,10 +36,10 @@ Qed.
 
 (** distances inside the window of the source: code = 120 + distance *)
 Theorem window_distance_symbol_in_alphabet : forall dist,
-  1 <= dist <= WebpGen.Consts.lossless_windowSize ->
+  1 <= dist <= WebpGen.Vp8lRoles.lossless_role_lz_window_max ->
   0 <= fst (fst (lz_prefix (WebpGen.Consts.lossless_CodeToPlaneCodesCount + dist))) < WebpGen.Consts.lossless_NumDistanceCodes.
 Proof.
-  intros dist Hd. unfold WebpGen.Consts.lossless_windowSize, WebpGen.Consts.lossless_CodeToPlaneCodesCount,
+  intros dist Hd. unfold WebpGen.Vp8lRoles.lossless_role_lz_window_max, WebpGen.Consts.lossless_CodeToPlaneCodesCount,
     WebpGen.Consts.lossless_NumDistanceCodes in *.
   apply lz_symbol_bound. change (2 ^ 20) with 1048576. lia.
 Qed.
@@ -53,9 +53,9 @@ Qed.
 
 (** the maximum match length of the source has a length symbol *)
 Theorem max_length_symbol_in_alphabet : forall len,
-  1 <= len <= WebpGen.Consts.lossless_maxLength ->
+  1 <= len <= WebpGen.Vp8lRoles.lossless_role_max_match_length ->
   0 <= fst (fst (lz_prefix len)) < WebpGen.Consts.lossless_NumLengthCodes.
 Proof.
-  intros len Hl. unfold WebpGen.Consts.lossless_maxLength, WebpGen.Consts.lossless_NumLengthCodes in *.
+  intros len Hl. unfold WebpGen.Vp8lRoles.lossless_role_max_match_length, WebpGen.Consts.lossless_NumLengthCodes in *.
   apply lz_length_symbol_bound. lia.
 Qed.
